@@ -205,6 +205,18 @@ Theorem C16_engine_is_ref : forall m dict t,
 Proof. exact engine16_is_ref. Qed.
 Print Assumptions C16_engine_is_ref.
 
+(* USER TAGS OUTSIDE BLOCKS.  A line outside blocks with user tags <<<name>>> / <<<name=default>>> (UserLine; e.g.
+   #define SM_THREAD_<<<StateMachineThread=1>>>) passes the expander stages as it stands and gets its values in the user-tag phase
+   (C17_usertag: assigned -> value, else the default, else verbatim).  For every model, every ASSIGNMENT a of user tags and any
+   template lines that the first filtering turns into a template of the grammar admitted for the element lists and a (a user
+   line, after substitution, is not a FOR line: computed): the generated file is the reference expansion with el_user = a. *)
+Theorem C16_generate_user : forall m dict t (a : usertags),
+  in_grammar16 t = true -> wf_elements16 t (with_user a (elements_of_model m)) = true ->
+  forall lines, load_file dict lines = Some (render16 t) ->
+  generate_file m dict a lines = Some (ref16 (with_user a (elements_of_model m)) t).
+Proof. exact generate_is_ref. Qed.
+Print Assumptions C16_generate_user.
+
 (* ... and with the element lists read off the transition table in first-appearance order *)
 Theorem C16_engine_is_ref_table : forall tt structs protos msgs m dict t,
   tt_model tt structs protos msgs = Some m -> dict_ok dict = true -> in_grammar16 t = true ->
